@@ -52,6 +52,7 @@ Public API (keep small; C19/C20 reuse it):
     .spawn(name, fn) .run() -> Result   .Lock() .Condition(lock) .Event()
     .yield_point(tag) .block_until(pred, reason, timeout=None) .sleep(d)
     .now .time_module() .log (list of events) .note(event) .current_name()
+    .others_idle() .let_others_run()
   Result: outcome, waits, tasks{name: TaskInfo(result, exc, aborted)}, switches,
           log, steps, preempt_points, decisions
   ListStrategy, DFSStrategy, enumerate_schedules, schedule_strategy (hypothesis)
@@ -554,6 +555,30 @@ class Scheduler:
 
     def sleep(self, d):
         self.block_until(lambda: False, ("sleep", d), timeout=max(0.0, d))
+
+    def others_idle(self):
+        """True when no task other than the caller can ever act again by itself: each is
+        finished or parked without a timeout on something that is not available.  Used for
+        fairness verdicts ("spins although nobody else can change the state")."""
+        return self._idle_except(self._me())
+
+    def _idle_except(self, me):
+        for t in self.tasks:
+            if t is me or t.state == "done":
+                continue
+            if t.state == "blocked" and t.deadline is None:
+                if isinstance(t.reason, tuple) and t.reason and t.reason[0] == "yield-to-others":
+                    continue  # another task that is itself only waiting for the others
+                if not (t.ready is not None and t.ready()):
+                    continue
+            return False
+        return True
+
+    def let_others_run(self, reason="fairness"):
+        """Park the caller until ``others_idle()`` (a fair scheduler would run them)."""
+        me = self._me()
+        if me is not None and not self._idle_except(me):
+            self.block_until(lambda: self._idle_except(me), ("yield-to-others", reason))
 
     # -- tracing --------------------------------------------------------------------
     def _gtrace(self, frame, event, arg):
